@@ -215,6 +215,15 @@ func c15Archive(c *vrep.Ctx) {
 			}
 			sets = append(sets, set)
 		}
+	case "counts":
+		// EVERY number of licenses 1..N in one archive (batch sizes, worker shares)
+		for n := 1; n <= c.Pick(48, 130); n++ {
+			var set []string
+			for i := 0; i < n; i++ {
+				set = append(set, manyName(i))
+			}
+			sets = append(sets, set)
+		}
 	case "tuples":
 		base := append(append([]string(nil), pool...), syn[:3]...)
 		for _, a := range base {
